@@ -79,14 +79,14 @@ def PG (ctx : RCtx) (mc : Name → Nat) (bad : Abn → Prop) (I : Env → Prop) 
     (r : Rule) : Prop :=
   ∀ n ∈ S, ∀ env fuel, I env → costG mc W r ≤ fuel → NoBad bad (matchRule ctx fuel r n env)
 
-/-- a successful run of `r` keeps the environment invariant -/
-def Keeps (ctx : RCtx) (I : Env → Prop) (r : Rule) : Prop :=
-  ∀ f n env m env', I env → matchRule ctx f r n env = .ok (some m, env') → I env'
+/-- a successful run of `r` from a node of `S` keeps the environment invariant -/
+def Keeps (ctx : RCtx) (I : Env → Prop) (S : List Tree) (r : Rule) : Prop :=
+  ∀ f n, n ∈ S → ∀ env m env', I env → matchRule ctx f r n env = .ok (some m, env') → I env'
 
 variable {ctx : RCtx} {mc : Name → Nat} {bad : Abn → Prop} {I : Env → Prop} {S : List Tree} {W : Nat}
 
 theorem allLoop_noFuel (rs : List Rule) (hP : ∀ r ∈ rs, PG ctx mc bad I S W r)
-    (hK : ∀ r ∈ rs, Keeps ctx I r) :
+    (hK : ∀ r ∈ rs, Keeps ctx I S r) :
     ∀ n ∈ S, ∀ env fuel, I env → 1 + costListG mc W rs ≤ fuel → NoBad bad (allLoop ctx fuel rs n env) := by
   induction rs with
   | nil =>
@@ -108,7 +108,7 @@ theorem allLoop_noFuel (rs : List Rule) (hP : ∀ r ∈ rs, PG ctx mc bad I S W 
       | some x =>
         exact ih (fun r hr => hP r (List.mem_cons_of_mem _ hr))
           (fun r hr => hK r (List.mem_cons_of_mem _ hr)) n hn env' f
-          (hK r List.mem_cons_self f n env x env' hI hm) (by omega)
+          (hK r List.mem_cons_self f n hn env x env' hI hm) (by omega)
 
 theorem anyLoop_noFuel (rs : List Rule) (hP : ∀ r ∈ rs, PG ctx mc bad I S W r) :
     ∀ n ∈ S, ∀ env fuel, I env → 1 + costListG mc W rs ≤ fuel → NoBad bad (anyLoop ctx fuel rs n env) := by
@@ -377,7 +377,7 @@ theorem mainG (hcl : Closed ctx S W) (Q : Name → Prop)
     (hQ : ∀ id, Q id → PG ctx mc bad I S W (.matches id)) (hI0 : I Env.empty)
     (hfuel : ∀ p s, Pp p s → ∀ n env e, bad e →
       matchPatternEnv s ctx.src (matchFuel p n) p n env ≠ .error e)
-    (hkeep : ∀ r, PatsAll Pp r → Keeps ctx I r) :
+    (hkeep : ∀ r, PatsAll Pp r → Keeps ctx I S r) :
     ∀ r : Rule, RefsOK Q r → PatsAll Pp r → PG ctx mc bad I S W r
   | .pattern p rk s, _, hp => by
     intro n hn env fuel hI hf
@@ -615,7 +615,7 @@ theorem mainStopG (hcl : Closed ctx S W) (Q : Name → Prop)
     (hQ : ∀ id, Q id → PG ctx mc bad I S W (.matches id)) (hI0 : I Env.empty)
     (hfuel : ∀ p s, Pp p s → ∀ n env e, bad e →
       matchPatternEnv s ctx.src (matchFuel p n) p n env ≠ .error e)
-    (hkeep : ∀ r, PatsAll Pp r → Keeps ctx I r) :
+    (hkeep : ∀ r, PatsAll Pp r → Keeps ctx I S r) :
     ∀ stop : StopBy, RefsOKStop Q stop → PatsAllStop Pp stop → PStopG ctx mc bad I S W stop
   | .neighbor, _, _ => trivial
   | .end_, _, _ => trivial
@@ -624,7 +624,7 @@ theorem mainListG (hcl : Closed ctx S W) (Q : Name → Prop)
     (hQ : ∀ id, Q id → PG ctx mc bad I S W (.matches id)) (hI0 : I Env.empty)
     (hfuel : ∀ p s, Pp p s → ∀ n env e, bad e →
       matchPatternEnv s ctx.src (matchFuel p n) p n env ≠ .error e)
-    (hkeep : ∀ r, PatsAll Pp r → Keeps ctx I r) :
+    (hkeep : ∀ r, PatsAll Pp r → Keeps ctx I S r) :
     ∀ rs : List Rule, RefsOKList Q rs → PatsAllList Pp rs → ∀ r ∈ rs, PG ctx mc bad I S W r
   | [], _, _ => fun r hr => by cases hr
   | q :: qs, hnm, hp => by
@@ -767,37 +767,82 @@ open AGV AGV.RuleFuel
 
 /-! ## an environment invariant kept by every successful run -/
 
+theorem mem_insertByName {β} (x y : Name × β) : ∀ l : List (Name × β),
+    y ∈ insertByName x l → y = x ∨ y ∈ l
+  | [], h => by simp [insertByName] at h; exact .inl h
+  | z :: zs, h => by
+    simp only [insertByName] at h
+    split at h
+    · rcases List.mem_cons.1 h with h | h
+      · exact .inl h
+      · exact .inr h
+    · rcases List.mem_cons.1 h with h | h
+      · exact .inr (h ▸ List.mem_cons_self)
+      · rcases mem_insertByName x y zs h with h | h
+        · exact .inl h
+        · exact .inr (List.mem_cons_of_mem _ h)
+
+theorem length_insertByName {β} (x : Name × β) : ∀ l : List (Name × β),
+    (insertByName x l).length = l.length + 1
+  | [] => rfl
+  | z :: zs => by
+    simp only [insertByName]
+    split
+    · rfl
+    · simp [length_insertByName x zs]
+
+theorem mem_sortByName {β} (y : Name × β) : ∀ l : List (Name × β), y ∈ sortByName l → y ∈ l
+  | [], h => by simp [sortByName] at h
+  | x :: xs, h => by
+    simp only [sortByName, List.foldr_cons] at h
+    rcases mem_insertByName x y _ h with h | h
+    · exact h ▸ List.mem_cons_self
+    · exact List.mem_cons_of_mem _ (mem_sortByName y xs h)
+
+theorem length_sortByName {β} : ∀ l : List (Name × β), (sortByName l).length = l.length
+  | [] => rfl
+  | x :: xs => by
+    simp only [sortByName, List.foldr_cons, length_insertByName]
+    have := length_sortByName xs
+    simp only [sortByName] at this
+    simp [this]
+
+
 section
-variable (ctx : RCtx) (I : Env → Prop) (Pp : PNode → Strictness → Prop)
+variable (ctx : RCtx) (I : Env → Prop) (S : List Tree) (W : Nat) (hcl : Closed ctx S W)
+  (Pp : PNode → Strictness → Prop)
   (hLab : ∀ env m, I env → I (env.addLabel secondaryLabel m))
-  (hPk : ∀ p s, Pp p s → ∀ f c env env', I env →
+  (hPk : ∀ p s, Pp p s → ∀ f c env env', c ∈ S → I env →
     matchPatternEnv s ctx.src f p c env = .ok (some env') → I env')
   (hLoc : ∀ id q, alookup id ctx.locals = some q → PatsAll Pp q)
   (hGlob : ∀ id core, alookup id ctx.globals = some core →
     PatsAll Pp core.rule ∧ ∀ v m, alookup v core.constraints = some m → PatsAll Pp m)
+  (hCand : ∀ id core, alookup id ctx.globals = some core →
+    core.constraints = [] ∨ ∀ env, I env → ∀ kv ∈ env.single, kv.2 ∈ S)
 
 def KeepsF (f : Nat) (r : Rule) : Prop :=
-  ∀ n env m env', I env → matchRule ctx f r n env = .ok (some m, env') → I env'
+  ∀ n, n ∈ S → ∀ env m env', I env → matchRule ctx f r n env = .ok (some m, env') → I env'
 
-theorem allChain_keeps (f : Nat) (n : Tree) (hK : ∀ r, PatsAll Pp r → KeepsF ctx I f r) :
+theorem allChain_keeps (f : Nat) (n : Tree) (hn : n ∈ S) (hK : ∀ r, PatsAll Pp r → KeepsF ctx I S f r) :
     ∀ (rs : List Rule) (env env' : Env), PatsAllList Pp rs → I env →
       AllChain ctx f n rs env env' → I env'
   | [], env, env', _, hI, h => by cases h; exact hI
   | r :: rs, env, env', hp, hI, h => by
     simp only [PatsAllList] at hp
     obtain ⟨m, env1, h1, h2⟩ := h
-    exact allChain_keeps f n hK rs env1 env' hp.2 (hK r hp.1 n env m env1 hI h1) h2
+    exact allChain_keeps f n hn hK rs env1 env' hp.2 (hK r hp.1 n hn env m env1 hI h1) h2
 
 theorem constraintLoop_keeps (f : Nat) (cons : List (Name × Rule))
     (hcons : ∀ v m, alookup v cons = some m → PatsAll Pp m)
-    (hK : ∀ r, PatsAll Pp r → KeepsF ctx I f r) :
-    ∀ (g : Nat), g ≤ f → ∀ (l : List (Name × Tree)) (env env' : Env), I env →
+    (hK : ∀ r, PatsAll Pp r → KeepsF ctx I S f r) :
+    ∀ (g : Nat), g ≤ f → ∀ (l : List (Name × Tree)) (env env' : Env),
+      (∀ v cand, (v, cand) ∈ l → ∀ m, alookup v cons = some m → cand ∈ S) → I env →
       constraintLoop ctx g cons l env = .ok (true, env') → I env' := by
   intro g
   induction g with
-  | zero => intro _ l env env' _ h; simp [constraintLoop] at h
+  | zero => intro _ l env env' _ _ h; simp [constraintLoop] at h
   | succ g ih =>
-    intro hg l env env' hI h
+    intro hg l env env' hS hI h
     cases l with
     | nil =>
       simp only [constraintLoop, Except.ok.injEq, Prod.mk.injEq, true_and] at h
@@ -806,7 +851,9 @@ theorem constraintLoop_keeps (f : Nat) (cons : List (Name × Rule))
       obtain ⟨v, cand⟩ := b
       simp only [constraintLoop] at h
       cases hl : alookup v cons with
-      | none => rw [hl] at h; exact ih (by omega) rest env env' hI h
+      | none =>
+        rw [hl] at h
+        exact ih (by omega) rest env env' (fun v' c' hm => hS v' c' (List.mem_cons_of_mem _ hm)) hI h
       | some m =>
         rw [hl] at h
         simp only at h
@@ -818,15 +865,16 @@ theorem constraintLoop_keeps (f : Nat) (cons : List (Name × Rule))
           | some x =>
             simp only at h
             have hm' := matchRule_fuel_mono ctx (by omega : g ≤ f) hm
-            exact ih (by omega) rest env1 env' (hK m (hcons v m hl) cand env x env1 hI hm') h
+            exact ih (by omega) rest env1 env' (fun v' c' hm => hS v' c' (List.mem_cons_of_mem _ hm))
+              (hK m (hcons v m hl) cand (hS v cand List.mem_cons_self m hl) env x env1 hI hm') h
 
-include hLab hPk hLoc hGlob in
+include hcl hLab hPk hLoc hGlob hCand in
 /-- every successful run of a rule all of whose patterns keep the invariant keeps it -/
-theorem keepsF_all (f : Nat) : ∀ r, PatsAll Pp r → KeepsF ctx I f r := by
+theorem keepsF_all (f : Nat) : ∀ r, PatsAll Pp r → KeepsF ctx I S f r := by
   induction f with
-  | zero => intro r _ n env m env' _ h; simp [matchRule] at h
+  | zero => intro r _ n _ env m env' _ h; simp [matchRule] at h
   | succ f ih =>
-    intro r hp n env m env' hI h
+    intro r hp n hn env m env' hI h
     cases r with
     | pattern p k s =>
       simp only [PatsAll] at hp
@@ -838,7 +886,7 @@ theorem keepsF_all (f : Nat) : ∀ r, PatsAll Pp r → KeepsF ctx I f r := by
           · cases h
           · next e1 hpe =>
             simp only [Except.ok.injEq, Prod.mk.injEq] at h
-            exact h.2 ▸ hPk p s hp _ _ _ _ hI hpe
+            exact h.2 ▸ hPk p s hp _ _ _ _ hn hI hpe
           · simp at h
     | kind k =>
       simp only [matchRule, Except.ok.injEq, Prod.mk.injEq] at h; exact h.2 ▸ hI
@@ -877,7 +925,7 @@ theorem keepsF_all (f : Nat) : ∀ r, PatsAll Pp r → KeepsF ctx I f r := by
                 · cases h
                 · next v e1 hm =>
                   simp only [Except.ok.injEq, Prod.mk.injEq] at h
-                  exact h.2 ▸ ih q hp n env v e1 hI hm
+                  exact h.2 ▸ ih q hp n hn env v e1 hI hm
                 · simp at h
     | all rs kinds =>
       simp only [PatsAll] at hp
@@ -888,7 +936,7 @@ theorem keepsF_all (f : Nat) : ∀ r, PatsAll Pp r → KeepsF ctx I f r := by
         · cases h
         · next e1 ha =>
           simp only [Except.ok.injEq, Prod.mk.injEq] at h
-          exact h.2 ▸ allChain_keeps ctx I Pp f n ih rs env e1 hp hI (allLoop_true_chain ctx f rs n env e1 ha)
+          exact h.2 ▸ allChain_keeps ctx I S Pp f n hn ih rs env e1 hp hI (allLoop_true_chain ctx f rs n env e1 ha)
         · simp at h
     | any rs kinds =>
       simp only [PatsAll] at hp
@@ -901,7 +949,7 @@ theorem keepsF_all (f : Nat) : ∀ r, PatsAll Pp r → KeepsF ctx I f r := by
           simp only [Except.ok.injEq, Prod.mk.injEq] at h
           obtain ⟨pre, q, post, mm, e, _, hq⟩ := anyLoop_winner ctx f rs n env e1 ha
           have hqm : q ∈ rs := by rw [e]; simp
-          exact h.2 ▸ ih q (patsAllList_mem hp q hqm) n env mm e1 hI hq
+          exact h.2 ▸ ih q (patsAllList_mem hp q hqm) n hn env mm e1 hI hq
         · simp at h
     | not q =>
       simp only [matchRule] at h
@@ -912,7 +960,7 @@ theorem keepsF_all (f : Nat) : ∀ r, PatsAll Pp r → KeepsF ctx I f r := by
     | «matches» id =>
       simp only [matchRule] at h
       cases hl : alookup id ctx.locals with
-      | some q => rw [hl] at h; exact ih q (hLoc id q hl) n env m env' hI h
+      | some q => rw [hl] at h; exact ih q (hLoc id q hl) n hn env m env' hI h
       | none =>
         rw [hl] at h
         simp only at h
@@ -926,8 +974,13 @@ theorem keepsF_all (f : Nat) : ∀ r, PatsAll Pp r → KeepsF ctx I f r := by
             ⟨_, h2, _⟩ | ⟨_, ⟨e1, _, h2, _⟩ | ⟨ret, e1, hr, ⟨hc, _⟩ | ⟨e2, _, h2, _⟩⟩⟩
           · cases h2
           · cases h2
-          · exact constraintLoop_keeps ctx I Pp f core.constraints hgc ih f (Nat.le_refl _) _ e1 env'
-              (ih core.rule hgr n env ret e1 hI hr) hc
+          · have hI1 := ih core.rule hgr n hn env ret e1 hI hr
+            refine constraintLoop_keeps ctx I S Pp f core.constraints hgc ih f (Nat.le_refl _) _ e1 env'
+              ?_ hI1 hc
+            intro v cand hmem mm hv
+            rcases hCand id core hg with h0 | hS
+            · rw [h0] at hv; cases hv
+            · exact hS e1 hI1 (v, cand) (mem_sortByName _ _ hmem)
           · cases h2
     | inside q stop fld =>
       simp only [PatsAll] at hp
@@ -937,30 +990,49 @@ theorem keepsF_all (f : Nat) : ∀ r, PatsAll Pp r → KeepsF ctx I f r := by
       | zero => simp [matchInside] at h1
       | succ g =>
         simp only [matchInside] at h1
-        obtain ⟨c, _, hm⟩ := stopByFind_winner ctx g stop q fld n.id _ _ env m e1 h1
-        exact hLab _ _ (ih q hp.1 c env m e1 hI (matchRule_fuel_mono ctx (Nat.le_succ _) hm))
+        obtain ⟨c, hc, hm⟩ := stopByFind_winner ctx g stop q fld n.id _ _ env m e1 h1
+        have hcS : c ∈ S := by
+          rcases hc with hc | hc
+          · exact parent_mem hcl hn hc
+          · exact (hcl.ancestors n hn).1 c hc
+        exact hLab _ _ (ih q hp.1 c hcS env m e1 hI (matchRule_fuel_mono ctx (Nat.le_succ _) hm))
     | has q stop fld =>
       simp only [PatsAll] at hp
       simp only [matchRule] at h
       obtain ⟨e1, h1, rfl⟩ := withLabel_some h
-      obtain ⟨c, _, hm⟩ := matchHas_winner ctx f q stop fld n env m e1 h1
-      exact hLab _ _ (ih q hp.1 c env m e1 hI hm)
+      obtain ⟨c, hc, hm⟩ := matchHas_winner ctx f q stop fld n env m e1 h1
+      have hcS : c ∈ S := by
+        refine (hcl.preorder n hn).1 c ?_
+        cases n with
+        | node i cs => simpa [Tree.preorder, Tree.children] using Or.inr hc
+      exact hLab _ _ (ih q hp.1 c hcS env m e1 hI hm)
     | precedes q stop =>
       simp only [PatsAll] at hp
       simp only [matchRule] at h
       obtain ⟨e1, h1, rfl⟩ := withLabel_some h
-      obtain ⟨c, _, hm⟩ := stopByFind_winner ctx f stop q none n.id _ _ env m e1 h1
-      exact hLab _ _ (ih q hp.1 c env m e1 hI hm)
+      obtain ⟨c, hc, hm⟩ := stopByFind_winner ctx f stop q none n.id _ _ env m e1 h1
+      have hx := hcl.next n hn
+      have hcS : c ∈ S := by
+        rcases hc with hc | hc
+        · exact hx.2.2 c hc
+        · exact hx.1 c hc
+      exact hLab _ _ (ih q hp.1 c hcS env m e1 hI hm)
     | follows q stop =>
       simp only [PatsAll] at hp
       simp only [matchRule] at h
       obtain ⟨e1, h1, rfl⟩ := withLabel_some h
-      obtain ⟨c, _, hm⟩ := stopByFind_winner ctx f stop q none n.id _ _ env m e1 h1
-      exact hLab _ _ (ih q hp.1 c env m e1 hI hm)
+      obtain ⟨c, hc, hm⟩ := stopByFind_winner ctx f stop q none n.id _ _ env m e1 h1
+      have hx := hcl.prev n hn
+      have hcS : c ∈ S := by
+        rcases hc with hc | hc
+        · exact hx.2.2 c hc
+        · exact hx.1 c hc
+      exact hLab _ _ (ih q hp.1 c hcS env m e1 hI hm)
 
-include hLab hPk hLoc hGlob in
-theorem keeps_all (r : Rule) (hp : PatsAll Pp r) : Keeps ctx I r :=
-  fun f n env m env' hI h => keepsF_all ctx I Pp hLab hPk hLoc hGlob f r hp n env m env' hI h
+include hcl hLab hPk hLoc hGlob hCand in
+theorem keeps_all (r : Rule) (hp : PatsAll Pp r) : Keeps ctx I S r :=
+  fun f n hn env m env' hI h =>
+    keepsF_all ctx I S W hcl Pp hLab hPk hLoc hGlob hCand f r hp n hn env m env' hI h
 
 end
 
@@ -1011,51 +1083,11 @@ def RegRanked (ctx : RCtx) (rank : Name → Nat) : Prop :=
 instance (ctx : RCtx) (rank : Name → Nat) : Decidable (RegRanked ctx rank) := by
   unfold RegRanked; infer_instance
 
-theorem mem_insertByName {β} (x y : Name × β) : ∀ l : List (Name × β),
-    y ∈ insertByName x l → y = x ∨ y ∈ l
-  | [], h => by simp [insertByName] at h; exact .inl h
-  | z :: zs, h => by
-    simp only [insertByName] at h
-    split at h
-    · rcases List.mem_cons.1 h with h | h
-      · exact .inl h
-      · exact .inr h
-    · rcases List.mem_cons.1 h with h | h
-      · exact .inr (h ▸ List.mem_cons_self)
-      · rcases mem_insertByName x y zs h with h | h
-        · exact .inl h
-        · exact .inr (List.mem_cons_of_mem _ h)
-
-theorem length_insertByName {β} (x : Name × β) : ∀ l : List (Name × β),
-    (insertByName x l).length = l.length + 1
-  | [] => rfl
-  | z :: zs => by
-    simp only [insertByName]
-    split
-    · rfl
-    · simp [length_insertByName x zs]
-
-theorem mem_sortByName {β} (y : Name × β) : ∀ l : List (Name × β), y ∈ sortByName l → y ∈ l
-  | [], h => by simp [sortByName] at h
-  | x :: xs, h => by
-    simp only [sortByName, List.foldr_cons] at h
-    rcases mem_insertByName x y _ h with h | h
-    · exact h ▸ List.mem_cons_self
-    · exact List.mem_cons_of_mem _ (mem_sortByName y xs h)
-
-theorem length_sortByName {β} : ∀ l : List (Name × β), (sortByName l).length = l.length
-  | [] => rfl
-  | x :: xs => by
-    simp only [sortByName, List.foldr_cons, length_insertByName]
-    have := length_sortByName xs
-    simp only [sortByName] at this
-    simp [this]
-
 section
 variable {ctx : RCtx} {mc : Name → Nat} {bad : Abn → Prop} {I : Env → Prop} {S : List Tree} {W : Nat}
 
 theorem constraintLoop_noFuel (cons : List (Name × Rule))
-    (hPm : ∀ v m, alookup v cons = some m → PG ctx mc bad I S W m ∧ Keeps ctx I m) :
+    (hPm : ∀ v m, alookup v cons = some m → PG ctx mc bad I S W m ∧ Keeps ctx I S m) :
     ∀ (L : List (Name × Tree)),
       (∀ v cand, (v, cand) ∈ L → ∀ m, alookup v cons = some m → cand ∈ S) →
       ∀ env fuel, I env → L.length + 1 + consCostG mc W cons ≤ fuel →
@@ -1088,7 +1120,7 @@ theorem constraintLoop_noFuel (cons : List (Name × Rule))
         obtain ⟨o, env1⟩ := x
         cases o with
         | none => simp [NoBad]
-        | some y => exact ih hS' env1 f (hK f cand env y env1 hI hm) (by omega)
+        | some y => exact ih hS' env1 f (hK f cand hc env y env1 hI hm) (by omega)
 
 end
 
@@ -1101,7 +1133,7 @@ variable (ctx : RCtx) (bad : Abn → Prop) (S : List Tree) (W B : Nat) (hcl : Cl
   (Pp : PNode → Strictness → Prop)
   (hfuel : ∀ p s, Pp p s → ∀ n env e, bad e →
       matchPatternEnv s ctx.src (matchFuel p n) p n env ≠ .error e)
-  (hPk : ∀ p s, Pp p s → ∀ f c env env', I env →
+  (hPk : ∀ p s, Pp p s → ∀ f c env env', c ∈ S → I env →
     matchPatternEnv s ctx.src f p c env = .ok (some env') → I env')
   (hLoc : ∀ id q, alookup id ctx.locals = some q → PatsAll Pp q)
   (hGlob : ∀ id core, alookup id ctx.globals = some core →
@@ -1112,7 +1144,8 @@ variable (ctx : RCtx) (bad : Abn → Prop) (S : List Tree) (W B : Nat) (hcl : Cl
 include hcl hrank hI0 hB hLab hfuel hPk hLoc hGlob hCand in
 /-- a reference to a utility of rank below `k` never runs out of fuel, from `mcost k` on -/
 theorem matches_noFuel : ∀ k id, rank id < k → PG ctx (mcost ctx W B k) bad I S W (.matches id) := by
-  have hkeep : ∀ r, PatsAll Pp r → Keeps ctx I r := keeps_all ctx I Pp hLab hPk hLoc hGlob
+  have hkeep : ∀ r, PatsAll Pp r → Keeps ctx I S r :=
+    keeps_all ctx I S W hcl Pp hLab hPk hLoc hGlob hCand
   intro k
   induction k with
   | zero => intro id h; omega
@@ -1158,9 +1191,9 @@ theorem matches_noFuel : ∀ k id, rank id < k → PG ctx (mcost ctx W B k) bad 
             | none => simp [NoBad]
             | some ret =>
               simp only
-              have hI1 : I env1 := hkeep core.rule hp1 f' n env ret env1 hI hm
+              have hI1 : I env1 := hkeep core.rule hp1 f' n hn env ret env1 hI hm
               have hPm : ∀ v m, alookup v core.constraints = some m →
-                  PG ctx (mcost ctx W B k) bad I S W m ∧ Keeps ctx I m := by
+                  PG ctx (mcost ctx W B k) bad I S W m ∧ Keeps ctx I S m := by
                 intro v m hv
                 exact ⟨hmain m (hr2 (v, m) (alookup_mem hv)) (hp2 v m hv), hkeep m (hp2 v m hv)⟩
               have hcands : ∀ v cand, (v, cand) ∈ sortByName env1.single →
@@ -1185,7 +1218,62 @@ theorem rule_noFuel (K : Nat) (r : Rule) (hr : refsBelow rank K r = true) (hp : 
     PG ctx (mcost ctx W B K) bad I S W r :=
   mainG hcl (fun id => rank id < K)
     (matches_noFuel ctx bad S W B hcl rank hrank I hI0 hB hLab Pp hfuel hPk hLoc hGlob hCand K)
-    hI0 hfuel (keeps_all ctx I Pp hLab hPk hLoc hGlob) r (refsBelow_spec rank K r hr) hp
+    hI0 hfuel (keeps_all ctx I S W hcl Pp hLab hPk hLoc hGlob hCand) r (refsBelow_spec rank K r hr) hp
+
+/-- the bound for a whole rule core: kinds gate, rule, constraint loop -/
+def coreCost (ctx : RCtx) (W B K : Nat) (core : RuleCore) : Nat :=
+  2 + costG (mcost ctx W B K) W core.rule + B + consCostG (mcost ctx W B K) W core.constraints
+
+include hcl hrank hI0 hB hLab hfuel hPk hLoc hGlob hCand in
+/-- **fuel sufficiency for a rule core** (`RuleCore::do_match`: rule, then the constraint loop):
+references of the rule and of the constraint rules ranked below `K`; a core with constraints needs
+the captured nodes to be nodes of `S` -/
+theorem core_noFuel (K : Nat) (core : RuleCore) (hr1 : refsBelow rank K core.rule = true)
+    (hr2 : ∀ c ∈ core.constraints, refsBelow rank K c.2 = true) (hp1 : PatsAll Pp core.rule)
+    (hp2 : ∀ v m, alookup v core.constraints = some m → PatsAll Pp m)
+    (hcand : core.constraints = [] ∨ ∀ env, I env → ∀ kv ∈ env.single, kv.2 ∈ S) :
+    ∀ n ∈ S, ∀ env fuel, I env → coreCost ctx W B K core ≤ fuel →
+      NoBad bad (matchCore ctx fuel core n env) := by
+  have hkeep : ∀ r, PatsAll Pp r → Keeps ctx I S r :=
+    keeps_all ctx I S W hcl Pp hLab hPk hLoc hGlob hCand
+  have hmain : ∀ q, refsBelow rank K q = true → PatsAll Pp q →
+      PG ctx (mcost ctx W B K) bad I S W q :=
+    fun q hq hp => rule_noFuel ctx bad S W B hcl rank hrank I hI0 hB hLab Pp hfuel hPk hLoc hGlob
+      hCand K q hq hp
+  intro n hn env fuel hI hf
+  simp only [coreCost] at hf
+  obtain ⟨f', rfl⟩ : ∃ f', fuel = f' + 1 := ⟨fuel - 1, by omega⟩
+  simp only [matchCore]
+  split
+  · simp [NoBad]
+  · have h1 := hmain core.rule hr1 hp1 n hn env f' hI (by omega)
+    cases hm : matchRule ctx f' core.rule n env with
+    | error e => simp only [NoBad]; intro e' hb h; injection h with h; subst h; exact h1 _ hb hm
+    | ok x =>
+      obtain ⟨o, env1⟩ := x
+      cases o with
+      | none => simp [NoBad]
+      | some ret =>
+        simp only
+        have hI1 : I env1 := hkeep core.rule hp1 f' n hn env ret env1 hI hm
+        have hPm : ∀ v m, alookup v core.constraints = some m →
+            PG ctx (mcost ctx W B K) bad I S W m ∧ Keeps ctx I S m := by
+          intro v m hv
+          exact ⟨hmain m (hr2 (v, m) (alookup_mem hv)) (hp2 v m hv), hkeep m (hp2 v m hv)⟩
+        have hcands : ∀ v cand, (v, cand) ∈ sortByName env1.single →
+            ∀ m, alookup v core.constraints = some m → cand ∈ S := by
+          intro v cand hmem m hv
+          rcases hcand with h0 | hS
+          · rw [h0] at hv; cases hv
+          · exact hS env1 hI1 (v, cand) (mem_sortByName _ _ hmem)
+        have hlen : (sortByName env1.single).length ≤ B := by
+          rw [length_sortByName]; exact hB env1 hI1
+        have h2 := constraintLoop_noFuel core.constraints hPm _ hcands env1 f' hI1 (by omega)
+        cases hc : constraintLoop ctx f' core.constraints (sortByName env1.single) env1 with
+        | error e => simp only [NoBad]; intro e' hb h; injection h with h; subst h; exact h2 _ hb hc
+        | ok y =>
+          obtain ⟨b, env2⟩ := y
+          cases b <;> simp [NoBad]
 
 end
 
